@@ -783,3 +783,9 @@ mutant('C20', 'walk-with-cursor-drops-last', PT, """        elements = [motor]
             elements.append(cursor)
             cursor = cursor.drives
 """, 'C20.walk')
+
+# ------------------------------------------------------------------------------------------ C15 efficiency product over all matings
+mutant('C15', 'efficiency-skips-worm-gear:static-error (pre-fix shape)', RUTIL, "        if isinstance(element, SpurGear | WormGear):\n", "        if isinstance(element, SpurGear):\n", 'C15.value', nth=0)
+mutant('C15', 'efficiency-skips-worm-gear:pwm-min (pre-fix shape)', RUTIL, "        if isinstance(element, SpurGear | WormGear):\n", "        if isinstance(element, SpurGear):\n", 'C15.value', nth=1)
+mutant('C15', 'efficiency-only-helical', RUTIL, "        if isinstance(element, SpurGear | WormGear):\n", "        if isinstance(element, HelicalGear | WormGear):\n", 'C15.value', nth=0)
+benign('C15', 'efficiency-filter-by-hasattr', RUTIL, "        if isinstance(element, SpurGear | WormGear):\n", "        if hasattr(element, 'master_gear_efficiency'):\n", nth=0)
